@@ -280,9 +280,15 @@ class Exec:
             clamp = lambda x: z3.If(x < 0, z3.If(x + sq.n < 0, 0, x + sq.n), z3.If(x > sq.n, sq.n, x))
             l = clamp(lo) if lo is not None else z3.IntVal(0)
             h = clamp(hi) if hi is not None else sq.n
-            n = z3.If(h > l, h - l, 0)
+            n = z3.simplify(z3.If(h > l, h - l, 0))
             i = z3.Int("i!sl")
-            arr = z3.Lambda([i], z3.If(z3.And(i >= 0, i < n), sq.arr[i + l], S.dflt(S.sort_of(sq.elem))))
+            es = S.sort_of(sq.elem)
+            # a fresh array constant defined pointwise (not a lambda): usable in triggers
+            arr = S.fresh("sl.arr", z3.ArraySort(z3.IntSort(), es))
+            st2 = st2.fact(S.seq_norm(n, arr, es))
+            st2 = st2.fact(z3.ForAll([i], z3.Implies(z3.And(i >= 0, i < n), arr[i] == sq.arr[i + l]), patterns=[arr[i]]))
+            st2 = st2.fact(z3.ForAll([i], z3.Implies(z3.And(i >= l, i < l + n), arr[i - l] == sq.arr[i]), patterns=[sq.arr[i]])
+                           if not (z3.is_quantifier(sq.arr) and sq.arr.is_lambda()) else z3.BoolVal(True))
             return k(SSeq(sq.elem, n, arr), st2)
         def lo_done(lo, st2):
             if sl.upper is None: return with_bounds(lo, None, st2)
